@@ -88,3 +88,76 @@ Section LM.
   | creach_init : creachable limit (cc_init limit)
   | creach_step : forall c c', creachable limit c -> cstep c c' -> creachable limit c'.
 End LM.
+
+(* ---- tie of the protocol above to the lock table generated from the source ----
+   shape of a method = the stacks of held locks of its scopes in program order (pre-order of the scope tree; the stack
+   lengths give the nesting, so the list determines the lock structure of the tree).  proto_shape is the lock protocol the
+   steps of cstep follow: mutators (cs_lock_x .. cs_unlock_x) one exclusive section on access_lock; stats one shared
+   section; fetch one shared section with the lru_mutex section (the atomic cs_move step) nested in it.  Props.v proves
+   that every entry (every path of every method) of the CURRENT table has exactly the shape assumed here. *)
+From Coq Require Import String.
+Definition shape (s : scope) : list (list lock) := map fst (nodes [] s).
+Definition lock_eqb (x y : lock) : bool := N.eqb (fst x) (fst y) && mode_eqb (snd x) (snd y).
+Fixpoint locks_eqb (x y : list lock) : bool :=
+  match x, y with [], [] => true | p :: x', q :: y' => lock_eqb p q && locks_eqb x' y' | _, _ => false end.
+Fixpoint shape_eqb (x y : list (list lock)) : bool :=
+  match x, y with [], [] => true | p :: x', q :: y' => locks_eqb p q && shape_eqb x' y' | _, _ => false end.
+Definition mutator_names : list string := ["store"; "rise"; "remove"; "clear"; "add_ref"; "del_ref"]%string.
+Definition proto_shape (a l : lockid) (name : string) : option (list (list lock)) :=
+  if String.eqb name "fetch" then Some [[]; [(a, Shared)]; [(l, Excl); (a, Shared)]]
+  else if String.eqb name "stats" then Some [[]; [(a, Shared)]]
+  else if existsb (String.eqb name) mutator_names then Some [[]; [(a, Excl)]]
+  else None.
+Definition table_has_proto_shape (a l : lockid) (tbl : list (string * scope)) : bool :=
+  forallb (fun e : string * scope =>
+             match proto_shape a l (fst e) with Some sh => shape_eqb (shape (snd e)) sh | None => false end) tbl.
+(* the operation name under which an operation of the sequential object enters the table; a failed store is a path of store *)
+Definition name_of (o : Seq.cop) : string :=
+  match o with
+  | Seq.OFetch _ => "fetch" | Seq.OStore _ _ _ _ _ => "store" | Seq.OStoreFail _ _ _ _ _ => "store"
+  | Seq.ORise _ => "rise" | Seq.ORemove _ => "remove" | Seq.OClear => "clear" | Seq.OStats => "stats"
+  end%string.
+(* the lock stack a thread of the model holds in each phase *)
+Definition phase_held (a : lockid) (p : cphase) : list lock :=
+  if holds_x p then [(a, Excl)] else if holds_s p then [(a, Shared)] else [].
+
+(* what the shared sections may do: a scope entered with access_lock Shared and nothing else only reads; a scope under
+   access_lock Shared + lru_mutex writes nothing but the two LRU members; (writers hold access_lock Excl) *)
+Definition reader_sections_ok (a l : lockid) (f_lru f_c_lru : fieldid) (tbl : list (string * scope)) : bool :=
+  forallb (fun n : node =>
+    if locks_eqb (fst n) [(a, Shared)] then forallb (fun x : access => rw_eqb (snd x) Rd) (snd n)
+    else if locks_eqb (fst n) [(l, Excl); (a, Shared)] then
+      forallb (fun x : access => rw_eqb (snd x) Rd || N.eqb (fst x) f_lru || N.eqb (fst x) f_c_lru) (snd n)
+    else if locks_eqb (fst n) [(a, Excl)] then true
+    else match fst n with [] => forallb (fun x : access => rw_eqb (snd x) Rd) (snd n) | _ => false end)
+    (all_nodes tbl).
+
+(* ---- the data-level model as a refinement of the table semantics (Defs.step) ----
+   TR a l p st : a thread of the data-level model in phase p corresponds to a thread of the table semantics with frame
+   stack st (a = access_lock, l = lru_mutex).  The frames are those of a method of the protocol shape:
+   root (no lock) > section on access_lock > (fetch only) section on lru_mutex. *)
+Definition fr0 (ac : list access) (ks : list scope) : frame := mkF [] ac ks.
+Definition TR (a l : lockid) (tbl : list (string * scope)) (p : cphase) (st : tstate) : Prop :=
+  match p with
+  | CIdle => st = []
+  | CMutWait _ o => exists ac ac1, In (name_of o, Scope None ac [Scope (Some (a, Excl)) ac1 []]) tbl /\
+                                   st = [fr0 ac [Scope (Some (a, Excl)) ac1 []]]
+  | CMutIn _ _ => exists ac ac1, st = [mkF [(a, Excl)] ac1 []; fr0 ac []]
+  | CMutOut _ _ true => exists ac ac1, st = [mkF [(a, Excl)] ac1 []; fr0 ac []]
+  | CMutOut _ _ false => exists ac, st = [fr0 ac []]
+  | CRdWait _ o => exists ac ac1 ks1, In (name_of o, Scope None ac [Scope (Some (a, Shared)) ac1 ks1]) tbl /\
+                                      (forall k, o = Seq.OFetch k -> exists ac2, ks1 = [Scope (Some (l, Excl)) ac2 []]) /\
+                                      st = [fr0 ac [Scope (Some (a, Shared)) ac1 ks1]]
+  | CRdIn _ o => exists ac ac1 ks1, (forall k, o = Seq.OFetch k -> exists ac2, ks1 = [Scope (Some (l, Excl)) ac2 []]) /\
+                                    st = [mkF [(a, Shared)] ac1 ks1; fr0 ac []]
+  | CRdHit _ _ => exists ac ac1 ac2, st = [mkF [(a, Shared)] ac1 [Scope (Some (l, Excl)) ac2 []]; fr0 ac []]
+  | CRdMoved _ _ => exists ac ac1, st = [mkF [(a, Shared)] ac1 []; fr0 ac []]
+  | CRdOut _ _ true => exists ac ac1 ks1, st = [mkF [(a, Shared)] ac1 ks1; fr0 ac []]
+  | CRdOut _ _ false => exists ac, st = [fr0 ac []]
+  end.
+Definition Rel (a l : lockid) (tbl : list (string * scope)) (c : cconfig) (c' : config) : Prop :=
+  forall t, TR a l tbl (cc_ph c t) (c' t).
+
+(* a well-formed history names every call once *)
+Definition inv_unique {Op Ret} (h : list (hev Op Ret)) : Prop :=
+  forall id t o t' o', In (Inv Op Ret id t o) h -> In (Inv Op Ret id t' o') h -> o = o'.
